@@ -262,18 +262,22 @@ inline void note_operator_new()
 }
 
 // ------------------------------------------------------------------------------------------------ allocator kinds
-template <bool AlwaysEqual, bool Pocca, bool Pocma, bool Pocs, bool SocccDefault = false>
+template <bool AlwaysEqual, bool Pocca, bool Pocma, bool Pocs, bool SocccDefault = false, bool Labelled = false>
 struct Kind
 {
     static constexpr bool ALWAYS_EQUAL = AlwaysEqual;
+    // an always-equal allocator whose instances are nevertheless distinguishable (a label that takes no part in ==): memory
+    // is interchangeable, but get_allocator() still has to follow the propagation rules
+    static constexpr bool LABELLED = AlwaysEqual && Labelled;
+    static constexpr bool HAS_IDENTITY = !AlwaysEqual || Labelled;
     static constexpr bool POCCA = Pocca;
     static constexpr bool POCMA = Pocma;
     static constexpr bool POCS = Pocs;
     static constexpr bool SOCCC_DEFAULT = SocccDefault;  // select_on_container_copy_construction returns arena 0 (pmr-like)
     static std::string name()
     {
-        if (ALWAYS_EQUAL) return "stateless";
-        std::string s = "stateful";
+        if (ALWAYS_EQUAL && !LABELLED) return "stateless";
+        std::string s = LABELLED ? "always-equal+label" : "stateful";
         s += POCCA ? "+pocca" : "";
         s += POCMA ? "+pocma" : "";
         s += POCS ? "+pocs" : "";
@@ -307,7 +311,7 @@ constexpr int tag_of()
 }
 
 template <class T, class K>
-struct LedgerAlloc : ArenaHolder<!K::ALWAYS_EQUAL>
+struct LedgerAlloc : ArenaHolder<K::HAS_IDENTITY>
 {
     using value_type = T;
     using propagate_on_container_copy_assignment = std::bool_constant<K::POCCA>;
@@ -330,8 +334,9 @@ struct LedgerAlloc : ArenaHolder<!K::ALWAYS_EQUAL>
         this->set_arena(o.get_arena());
     }
 
-    T* allocate(std::size_t n) { return static_cast<T*>(ledger().allocate(this->get_arena(), tag_of<T>(), n * sizeof(T), alignof(T))); }
-    void deallocate(T* p, std::size_t n) noexcept { ledger().deallocate(this->get_arena(), tag_of<T>(), p, n * sizeof(T)); }
+    int ledger_arena() const noexcept { return K::ALWAYS_EQUAL ? 0 : this->get_arena(); }
+    T* allocate(std::size_t n) { return static_cast<T*>(ledger().allocate(ledger_arena(), tag_of<T>(), n * sizeof(T), alignof(T))); }
+    void deallocate(T* p, std::size_t n) noexcept { ledger().deallocate(ledger_arena(), tag_of<T>(), p, n * sizeof(T)); }
 
     LedgerAlloc select_on_container_copy_construction() const
     {
@@ -344,12 +349,12 @@ struct LedgerAlloc : ArenaHolder<!K::ALWAYS_EQUAL>
     template <class U>
     friend bool operator==(const LedgerAlloc& a, const LedgerAlloc<U, K>& b) noexcept
     {
-        return a.get_arena() == b.get_arena();
+        return K::ALWAYS_EQUAL || a.get_arena() == b.get_arena();
     }
     template <class U>
     friend bool operator!=(const LedgerAlloc& a, const LedgerAlloc<U, K>& b) noexcept
     {
-        return a.get_arena() != b.get_arena();
+        return !K::ALWAYS_EQUAL && a.get_arena() != b.get_arena();
     }
 };
 }  // namespace vf
